@@ -211,6 +211,68 @@ pub fn c08_maven_case(s: &str, acc: &mut Acc) {
     acc.sig(&("maven", has_segment));
 }
 
+/// "For every type the namespace, version, qualifiers and subpath are exactly what the type-agnostic
+/// parser returns": values that a well-meant normalisation would touch (version prefixes, numeric
+/// forms, case, trimming, escapes of another ecosystem) in every field other than the name, typed
+/// versus type-agnostic, through the builder and through the parser.
+#[cfg(feature = "typed")]
+pub fn c08_other_fields(acc: &mut Acc) -> u64 {
+    let mut values: Vec<String> = crate::pools::NEAR.iter().map(|s| s.to_string()).collect();
+    for v in ["v1.2.3", "V2", "v", "vv1", "1.0.0", "1.0.0+build+5", "1.0.0-SNAPSHOT", "==1.0", "latest", "!azure", "g/!azure/x", "@scope", "%40scope", "~1", "*", "1.0.0.RELEASE", "2024.01", "r1", "go1.22", "+incompatible", "v2.0.0+incompatible", "x86_64", "A B", "a+b", "A-B_c.D"] {
+        values.push(v.to_owned());
+    }
+    let mut n = 0u64;
+    for ty in R::KNOWN_TYPES {
+        for field in [0usize, 2, 3, 4] {
+            for v in &values {
+                if v.is_empty() {
+                    continue;
+                }
+                n += 1;
+                acc.evals += 1;
+                let case = json!({"engine": "c08-other-fields", "ty": ty, "field": field, "value": v});
+                let r = guarded(|| {
+                    let mut spec = spec_with(ty, field, v);
+                    if ty == "maven" && field == 0 && !v.split('/').any(|x| !x.is_empty()) {
+                        return;
+                    }
+                    // typed and type-agnostic builds of the same fields
+                    let mut gt = Grab { got: None, err: None };
+                    build_flavor("PackageType", &spec, acc, &mut gt);
+                    let mut gg = Grab { got: None, err: None };
+                    build_flavor("String", &spec, acc, &mut gg);
+                    let (Some(t), Some(g)) = (gt.got, gg.got) else {
+                        acc.violate(Violation { prop: "C08", kind: "other-fields-refused".into(), case: case.clone(), detail: format!("typed build {:?}, type-agnostic build {:?}", gt.err, gg.err) });
+                        return;
+                    };
+                    if t.0.ns != g.0.ns || t.0.version != g.0.version || t.0.quals != g.0.quals || t.0.subpath != g.0.subpath {
+                        acc.violate(Violation { prop: "C08", kind: "other-fields-touched".into(), case: case.clone(), detail: format!("typed build {:?}, type-agnostic build {:?}", t.0, g.0) });
+                    }
+                    // and through the parser, from the type-agnostic canonical string
+                    acc.calls += 2;
+                    match (<purl::PackageType as PFlavor>::parse(&g.1), <String as PFlavor>::parse(&g.1)) {
+                        (Ok(pt), Ok(pg)) => {
+                            let (ot, og) = (observe(&pt), observe(&pg));
+                            if ot.ns != og.ns || ot.version != og.version || ot.quals != og.quals || ot.subpath != og.subpath {
+                                acc.violate(Violation { prop: "C08", kind: "other-fields-touched".into(), case: case.clone(), detail: format!("{:?}: typed parse {:?}, type-agnostic parse {:?}", g.1, ot, og) });
+                            }
+                        },
+                        (Err(e), Ok(_)) => acc.violate(Violation { prop: "C08", kind: "other-fields-refused".into(), case: case.clone(), detail: format!("{:?} is refused by the typed parser only: {e}", g.1) }),
+                        _ => {},
+                    }
+                    spec.name.clear();
+                    acc.nontrivial += 1;
+                    acc.sig(&("other-fields", field));
+                });
+                if let Err(msg) = r {
+                    acc.violate(Violation { prop: "C06", kind: "panic".into(), case, detail: msg });
+                }
+            }
+        }
+    }
+    n
+}
+
 /// maven without a namespace is refused whatever the name looks like (builder, and parser with the
 /// name fully percent-encoded and — where that is the same PURL — written raw).
 #[cfg(feature = "typed")]
@@ -296,7 +358,10 @@ pub fn c08_sweep(tier: Tier) -> (Acc, Value) {
     let maven = for_all_short(&["/", "a", "%2F", "."], 5, |s, acc| c08_maven_case(s, acc));
     let maven_cases = maven.evals;
     total.merge(maven);
-    (total, json!({"engine": "E-sweep", "scalar_values": N_SCALARS, "scalar_name_cases": scalar_cases, "short_name_alphabet": alphabet, "short_name_max_len": n, "short_name_cases": short_cases, "long_name_max_tail": long_n, "long_name_cases": long_cases, "maven_namespace_cases": maven_cases}))
+    let mut of = Acc::new();
+    let other_field_cases = c08_other_fields(&mut of);
+    total.merge(of);
+    (total, json!({"engine": "E-sweep", "scalar_values": N_SCALARS, "scalar_name_cases": scalar_cases, "short_name_alphabet": alphabet, "short_name_max_len": n, "short_name_cases": short_cases, "long_name_max_tail": long_n, "long_name_cases": long_cases, "maven_namespace_cases": maven_cases, "other_field_cases": other_field_cases}))
 }
 
 // ------------------------------------------------------------------------------------------------
@@ -648,9 +713,11 @@ pub fn c18_sweep(tier: Tier) -> (Acc, Value) {
     let short_n = total.evals;
     // every scalar in a combined name
     let sc = for_all_scalars(|c, acc| {
-        let s = format!("a/{c}:b/{c}");
-        for ty in R::KNOWN_TYPES {
-            c18_forward(ty, &s, acc);
+        // between separators, and between letters (a marker character followed by a letter) in both parts
+        for s in [format!("a/{c}:b/{c}"), format!("g{c}h/x{c}y:z{c}w")] {
+            for ty in R::KNOWN_TYPES {
+                c18_forward(ty, &s, acc);
+            }
         }
     });
     let sc_n = sc.evals;
